@@ -77,6 +77,15 @@ func (P *Program) verifyFunction(con *Contract) (res *FuncResult) {
 		fr.freeVars = append(fr.freeVars, v)
 	}
 	g.paramEnd = len(g.lines)
+	// every ghost variable is part of the state from the start (a loop must treat all of them as modifiable)
+	var gnames []string
+	for n := range P.specs.Ghosts {
+		gnames = append(gnames, n)
+	}
+	sortStrings(gnames)
+	for _, n := range gnames {
+		g.ghostKeyFor(n)
+	}
 	fr.entry = st.clone()
 	g.entry = fr.entry
 	// known dynamic types from "requires dyn(p) == T"
@@ -203,6 +212,50 @@ func (fr *Frame) frameObligation(st *State, site string) {
 // frameFormula: every pre-existing heap location outside the assigns clause has its entry value in st.
 func (fr *Frame) frameFormula(st *State) string {
 	g := fr.g
+	allowed, allowAll := fr.frameAllowed()
+	var goals []string
+	fr.lastFrameParts = map[string]string{}
+	for _, k := range g.heapKeys() {
+		if gl := fr.frameForKey(st, k, allowed, allowAll); gl != "" {
+			goals = append(goals, gl)
+			fr.lastFrameParts[k] = gl
+		}
+	}
+	return and(goals...)
+}
+
+// frameForKey: the frame condition of one heap key ("" when nothing is to be shown).
+func (fr *Frame) frameForKey(st *State, k string, allowed map[string][]string, allowAll map[string]bool) string {
+	g := fr.g
+	if k == "G:$top" || allowAll[k] {
+		return ""
+	}
+	if !strings.HasPrefix(k, "G:") && !st.heap.maybeDirty(k) {
+		return "" // no pre-existing location of this key has been written
+	}
+	cur := st.heap.get(g, k)
+	old := fr.entry.heap.get(g, k)
+	if cur == old {
+		return ""
+	}
+	if strings.HasPrefix(k, "G:") {
+		return "(= " + cur + " " + old + ")"
+	}
+	top0 := fr.entry.heap.get(g, g.topKey())
+	r := g.fresh("fr")
+	conds := []string{"(<= " + r + " " + top0 + ")"}
+	for _, a := range allowed[k] {
+		conds = append(conds, "(not (= "+r+" "+a+"))")
+	}
+	return "(forall ((" + r + " Int)) (! (=> " + and(conds...) + " (= (select " + cur + " " + r + ") (select " + old + " " + r + "))) :pattern ((select " + cur + " " + r + "))))"
+}
+
+// frameAllowed: what the assigns clause permits (key -> references of the objects that may change; whole keys).
+func (fr *Frame) frameAllowed() (map[string][]string, map[string]bool) {
+	if fr.allowedMemo != nil {
+		return fr.allowedMemo, fr.allowAllMemo
+	}
+	g := fr.g
 	con := fr.con
 	// collect allowed (key -> list of refs) from assigns
 	allowed := map[string][]string{}
@@ -251,32 +304,8 @@ func (fr *Frame) frameFormula(st *State) string {
 			}
 		}
 	}
-	top0 := fr.entry.heap.get(g, g.topKey())
-	var goals []string
-	fr.lastFrameParts = map[string]string{}
-	for _, k := range g.heapKeys() {
-		if k == "G:$top" || allowAll[k] {
-			continue
-		}
-		cur := st.heap.get(g, k)
-		old := fr.entry.heap.get(g, k)
-		if cur == old {
-			continue
-		}
-		if strings.HasPrefix(k, "G:") {
-			goals = append(goals, "(= "+cur+" "+old+")")
-			fr.lastFrameParts[k] = "(= " + cur + " " + old + ")"
-			continue
-		}
-		r := g.fresh("fr")
-		conds := []string{"(<= " + r + " " + top0 + ")"}
-		for _, a := range allowed[k] {
-			conds = append(conds, "(not (= "+r+" "+a+"))")
-		}
-		goals = append(goals, "(forall (("+r+" Int)) (=> "+and(conds...)+" (= (select "+cur+" "+r+") (select "+old+" "+r+"))))")
-		fr.lastFrameParts[k] = goals[len(goals)-1]
-	}
-	return and(goals...)
+	fr.allowedMemo, fr.allowAllMemo = allowed, allowAll
+	return allowed, allowAll
 }
 
 // lateParamAssumptions: for every interface-typed parameter and every dynamic type seen in the script,
